@@ -753,4 +753,342 @@ theorem isPGcd_unique {g g' a b : Nat} (h : IsPGcd g a b) (h' : IsPGcd g' a b) :
     rw [hq1, one_clmul] at hq
     exact hq.symm
 
+/-! ## §10 the odd part; termination of the binary loops -/
+
+/-- `u / x^(wwLoZeroBits u)` -/
+def oddP (u : Nat) : Nat := u / 2 ^ ppLoZeros u
+
+theorem shr_loZeros (u : Nat) : u >>> ppLoZeros u = oddP u := Nat.shiftRight_eq_div_pow _ _
+
+theorem oddP_odd {u : Nat} (h : u ≠ 0) : oddP u % 2 = 1 := loZeros_odd h
+theorem oddP_mul (u : Nat) : oddP u * 2 ^ ppLoZeros u = u := Nat.div_mul_cancel (loZeros_dvd u)
+theorem oddP_ne_zero {u : Nat} (h : u ≠ 0) : oddP u ≠ 0 := by have := oddP_odd h; omega
+
+theorem log2_mul_two_pow {x : Nat} (hx : x ≠ 0) (t : Nat) : (x * 2 ^ t).log2 = x.log2 + t := by
+  induction t with
+  | zero => simp
+  | succ t ih =>
+    have hne : x * 2 ^ t ≠ 0 := Nat.mul_ne_zero hx (Nat.pos_iff_ne_zero.1 (Nat.two_pow_pos t))
+    rw [Nat.pow_succ, ← Nat.mul_assoc, Nat.mul_comm _ 2, Nat.log2_two_mul hne, ih]; omega
+
+theorem log2_oddP {u : Nat} (h : u ≠ 0) : (oddP u).log2 + ppLoZeros u = u.log2 := by
+  have := log2_mul_two_pow (oddP_ne_zero h) (ppLoZeros u)
+  rw [oddP_mul] at this; omega
+
+theorem loZeros_pos {u : Nat} (he : u % 2 = 0) : 1 ≤ ppLoZeros u := by
+  unfold ppLoZeros ppLoZerosF
+  rw [if_pos he]; omega
+
+theorem loZeros_of_odd {u : Nat} (ho : u % 2 = 1) : ppLoZeros u = 0 := by
+  unfold ppLoZeros ppLoZerosF
+  rw [if_neg (by omega)]
+
+theorem oddP_of_odd {u : Nat} (ho : u % 2 = 1) : oddP u = u := by
+  unfold oddP; rw [loZeros_of_odd ho]; simp
+
+theorem pdvd_shl {g x : Nat} (t : Nat) (h : PDvd g x) : PDvd g (x * 2 ^ t) := by
+  have := pdvd_mul (2 ^ t) h
+  rwa [two_pow_clmul, Nat.shiftLeft_eq] at this
+
+theorem pdvd_of_oddP {g u : Nat} (h : PDvd g (oddP u)) : PDvd g u := by
+  have := pdvd_shl (ppLoZeros u) h
+  rwa [oddP_mul] at this
+
+/-- the potential drops: u1 ≥ v1 odd, u2 = u1 + v1 ≠ 0 ⇒ deg(odd part of u2) < deg u1 -/
+theorem pot_drop {u1 v1 : Nat} (hu : u1 % 2 = 1) (hv : v1 % 2 = 1) (hle : v1 ≤ u1)
+    (hne : u1 ^^^ v1 ≠ 0) : (oddP (u1 ^^^ v1)).log2 + 1 ≤ u1.log2 := by
+  have he : (u1 ^^^ v1) % 2 = 0 := by rw [xor_mod_two, hu, hv]
+  have h1 := loZeros_pos he
+  have h2 := log2_oddP hne
+  have h3 : u1 ^^^ v1 < 2 ^ (u1.log2 + 1) :=
+    Nat.xor_lt_two_pow Nat.lt_log2_self (Nat.lt_of_le_of_lt hle Nat.lt_log2_self)
+  have h4 := (Nat.log2_lt hne).2 h3
+  omega
+
+theorem xor_xor_cancel (x y : Nat) : x ^^^ y ^^^ y = x := by
+  rw [Nat.xor_assoc, Nat.xor_self, Nat.xor_zero]
+
+/-- with enough fuel the do-while loop of ppGCD ends with u = 0, and the returned v divides both -/
+theorem gcdLoop_dvd (f : Nat) : ∀ u v, u ≠ 0 → v ≠ 0 → (oddP u).log2 + (oddP v).log2 + 1 ≤ f →
+    PDvd (ppGCDLoop f u v) u ∧ PDvd (ppGCDLoop f u v) v := by
+  induction f with
+  | zero => intro u v _ _ h; omega
+  | succ f ih =>
+    intro u v hu hv hf
+    have ou := oddP_odd hu
+    have ov := oddP_odd hv
+    unfold ppGCDLoop
+    simp only [shr_loZeros]
+    split
+    · rename_i hge
+      split
+      · rename_i hne
+        have hd := pot_drop ou ov hge hne
+        obtain ⟨g1, g2⟩ := ih (oddP u ^^^ oddP v) (oddP v) hne (oddP_ne_zero hv)
+          (by rw [oddP_of_odd ov]; omega)
+        have g3 := pdvd_xor g1 g2
+        rw [xor_xor_cancel] at g3
+        exact ⟨pdvd_of_oddP g3, pdvd_of_oddP g2⟩
+      · rename_i hz
+        have hz' : oddP u ^^^ oddP v = 0 := by simpa using hz
+        have he := xor_eq_zero_iff.1 hz'
+        refine ⟨pdvd_of_oddP ?_, pdvd_of_oddP (pdvd_refl _)⟩
+        rw [he]; exact pdvd_refl _
+    · rename_i hlt
+      have hlt' : oddP u ≤ oddP v := by omega
+      have hne : oddP v ^^^ oddP u ≠ 0 := by
+        intro h0; have := xor_eq_zero_iff.1 h0; omega
+      rw [if_pos (oddP_ne_zero hu)]
+      have hd := pot_drop ov ou hlt' hne
+      obtain ⟨g1, g2⟩ := ih (oddP u) (oddP v ^^^ oddP u) (oddP_ne_zero hu) hne
+        (by rw [oddP_of_odd ou]; omega)
+      have g3 := pdvd_xor g2 g1
+      rw [xor_xor_cancel] at g3
+      exact ⟨pdvd_of_oddP g1, pdvd_of_oddP g3⟩
+
+/-- the halving loops of ppExGCD / ppDivMod compute the odd part of u -/
+theorem halveEx_fst (aa bb f : Nat) : ∀ u da db,
+    (ppHalveEx aa bb f u da db).1 = u / 2 ^ ppLoZerosF f u := by
+  induction f with
+  | zero => intro u da db; simp [ppHalveEx, ppLoZerosF]
+  | succ f ih =>
+    intro u da db
+    unfold ppHalveEx ppLoZerosF
+    split
+    · have e : u / 2 ^ (1 + ppLoZerosF f (u / 2)) = u / 2 / 2 ^ ppLoZerosF f (u / 2) := by
+        rw [Nat.add_comm, Nat.pow_succ, Nat.mul_comm _ 2, ← Nat.div_div_eq_div_mul]
+      split <;> rw [ih, e]
+    · simp
+
+theorem halveMod_fst (md f : Nat) : ∀ u d,
+    (ppHalveMod md f u d).1 = u / 2 ^ ppLoZerosF f u := by
+  induction f with
+  | zero => intro u d; simp [ppHalveMod, ppLoZerosF]
+  | succ f ih =>
+    intro u d
+    unfold ppHalveMod ppLoZerosF
+    split
+    · have e : u / 2 ^ (1 + ppLoZerosF f (u / 2)) = u / 2 / 2 ^ ppLoZerosF f (u / 2) := by
+        rw [Nat.add_comm, Nat.pow_succ, Nat.mul_comm _ 2, ← Nat.div_div_eq_div_mul]
+      split <;> rw [ih, e]
+    · simp
+
+theorem halveEx_fst' (aa bb u da db : Nat) : (ppHalveEx aa bb (u.log2 + 1) u da db).1 = oddP u :=
+  halveEx_fst aa bb _ u da db
+theorem halveMod_fst' (md u d : Nat) : (ppHalveMod md (u.log2 + 1) u d).1 = oddP u :=
+  halveMod_fst md _ u d
+
+/-- ppExGCD's (u, v) run exactly as ppGCD's -/
+theorem exLoop_fst (aa bb f : Nat) : ∀ u v da0 db0 da db,
+    (ppExGCDLoop aa bb f u v da0 db0 da db).1 = ppGCDLoop f u v := by
+  induction f with
+  | zero => intro u v da0 db0 da db; rfl
+  | succ f ih =>
+    intro u v da0 db0 da db
+    unfold ppExGCDLoop ppGCDLoop
+    simp only [halveEx_fst', shr_loZeros]
+    split
+    · split
+      · exact ih _ _ _ _ _ _
+      · rfl
+    · split
+      · exact ih _ _ _ _ _ _
+      · rfl
+
+theorem exGCDV_fst (a b : Nat) : (ppExGCDV a b).1 = ppGCDV a b := by
+  unfold ppExGCDV ppGCDV
+  simp only [exLoop_fst]
+
+theorem pdvd_shiftLeft {g x : Nat} (s : Nat) (h : PDvd g x) : PDvd (g <<< s) (x <<< s) := by
+  obtain ⟨q, hq⟩ := h
+  exact ⟨q, by rw [hq, clmul_comm q g, ← shiftLeft_clmul, clmul_comm]⟩
+
+theorem gcdV_isPGcd {a b : Nat} (ha : a ≠ 0) (hb : b ≠ 0) : IsPGcd (ppGCDV a b) a b := by
+  have ea := shr_shl_of_le (Nat.min_le_left (ppLoZeros a) (ppLoZeros b))
+  have eb := shr_shl_of_le (Nat.min_le_right (ppLoZeros a) (ppLoZeros b))
+  have hu : a >>> min (ppLoZeros a) (ppLoZeros b) ≠ 0 := by
+    intro h0; rw [h0] at ea; simp at ea; exact ha ea.symm
+  have hv : b >>> min (ppLoZeros a) (ppLoZeros b) ≠ 0 := by
+    intro h0; rw [h0] at eb; simp at eb; exact hb eb.symm
+  have hfuel : (oddP (a >>> min (ppLoZeros a) (ppLoZeros b))).log2
+      + (oddP (b >>> min (ppLoZeros a) (ppLoZeros b))).log2 + 1
+      ≤ (a >>> min (ppLoZeros a) (ppLoZeros b)).log2 + (b >>> min (ppLoZeros a) (ppLoZeros b)).log2 + 3 := by
+    have := log2_oddP hu
+    have := log2_oddP hv
+    omega
+  obtain ⟨g1, g2⟩ := gcdLoop_dvd _ _ _ hu hv hfuel
+  refine ⟨?_, ?_, ?_⟩
+  · have := pdvd_shiftLeft (min (ppLoZeros a) (ppLoZeros b)) g1
+    rw [ea] at this; exact this
+  · have := pdvd_shiftLeft (min (ppLoZeros a) (ppLoZeros b)) g2
+    rw [eb] at this; exact this
+  · intro d hda hdb
+    obtain ⟨q1, h1⟩ := hda
+    obtain ⟨q2, h2⟩ := hdb
+    refine ⟨clmul q1 (ppExGCDV a b).2.1 ^^^ clmul q2 (ppExGCDV a b).2.2, ?_⟩
+    rw [← exGCDV_fst, ← exGCDV_bezout ha hb, xor_clmul, clmul_assoc, clmul_assoc,
+      clmul_comm (ppExGCDV a b).2.1 d, clmul_comm (ppExGCDV a b).2.2 d, ← clmul_assoc, ← clmul_assoc,
+      ← h1, ← h2]
+
+theorem gcdV_eq_pgcd {a b : Nat} (ha : a ≠ 0) (hb : b ≠ 0) : ppGCDV a b = pgcd a b :=
+  isPGcd_unique (gcdV_isPGcd ha hb) (pgcd_spec a b)
+
+/-! ## §11 ppDivMod: the loop ends with v = gcd(a, mod) -/
+
+theorem gcdLoop_isPGcd {u v : Nat} (hu : u ≠ 0) (hv : v ≠ 0) (hodd : u % 2 = 1 ∨ v % 2 = 1) (f : Nat)
+    (hf : (oddP u).log2 + (oddP v).log2 + 1 ≤ f) : IsPGcd (ppGCDLoop f u v) u v := by
+  obtain ⟨g1, g2⟩ := gcdLoop_dvd f u v hu hv hf
+  refine ⟨g1, g2, ?_⟩
+  intro d hda hdb
+  have inv := exLoop_inv u v hodd f u v 1 0 0 1
+    (by rw [clmul_one, clmul_zero, Nat.xor_zero]) (by rw [clmul_one, clmul_zero, Nat.zero_xor])
+  rw [exLoop_fst] at inv
+  obtain ⟨q1, h1⟩ := hda
+  obtain ⟨q2, h2⟩ := hdb
+  refine ⟨clmul q1 (ppExGCDLoop u v f u v 1 0 0 1).2.1 ^^^ clmul q2 (ppExGCDLoop u v f u v 1 0 0 1).2.2, ?_⟩
+  rw [← inv, xor_clmul, clmul_assoc, clmul_assoc,
+    clmul_comm (ppExGCDLoop u v f u v 1 0 0 1).2.1 d, clmul_comm (ppExGCDLoop u v f u v 1 0 0 1).2.2 d,
+    ← clmul_assoc, ← clmul_assoc, ← h1, ← h2]
+
+/-- the `while` loop of ppDivMod runs (u, v) as the do-while of ppGCD (one more test of u) -/
+theorem divLoop_fst (md f : Nat) : ∀ u v da0 da, u ≠ 0 → v ≠ 0 →
+    (oddP u).log2 + (oddP v).log2 + 1 ≤ f →
+    (ppDivModLoop md (f + 1) u v da0 da).1 = ppGCDLoop f u v := by
+  induction f with
+  | zero => intro u v _ _ _ _ h; omega
+  | succ f ih =>
+    intro u v da0 da hu hv hf
+    have ou := oddP_odd hu
+    have ov := oddP_odd hv
+    rw [ppDivModLoop, if_neg hu]
+    simp only [halveMod_fst']
+    unfold ppGCDLoop
+    simp only [shr_loZeros]
+    split
+    · rename_i hge
+      split
+      · rename_i hne
+        have hd := pot_drop ou ov hge hne
+        exact ih _ _ _ _ hne (oddP_ne_zero hv) (by rw [oddP_of_odd ov]; omega)
+      · rename_i hz
+        have hz' : oddP u ^^^ oddP v = 0 := by simpa using hz
+        rw [hz', ppDivModLoop, if_pos rfl]
+    · rename_i hlt
+      have hlt' : oddP u ≤ oddP v := by omega
+      have hne : oddP v ^^^ oddP u ≠ 0 := by
+        intro h0; have := xor_eq_zero_iff.1 h0; omega
+      have hd := pot_drop ov ou hlt' hne
+      rw [if_pos (oddP_ne_zero hu)]
+      exact ih _ _ _ _ (oddP_ne_zero hu) hne (by rw [oddP_of_odd ou]; omega)
+
+theorem divLoop_gcd (dv a md : Nat) (hmd : md % 2 = 1) :
+    (ppDivModLoop md (a.log2 + md.log2 + 4) a md dv 0).1 = pgcd a md := by
+  have hmd0 : md ≠ 0 := by omega
+  by_cases ha : a = 0
+  · subst ha
+    rw [ppDivModLoop, if_pos rfl]
+    exact isPGcd_unique ⟨pdvd_zero md, pdvd_refl md, fun d _ h => h⟩ (pgcd_spec 0 md)
+  · have hf : (oddP a).log2 + (oddP md).log2 + 1 ≤ a.log2 + md.log2 + 3 := by
+      have := log2_oddP ha
+      have := log2_oddP hmd0
+      omega
+    rw [divLoop_fst md (a.log2 + md.log2 + 3) a md dv 0 ha hmd0 hf]
+    exact isPGcd_unique (gcdLoop_isPGcd ha hmd0 (Or.inr hmd) _ hf) (pgcd_spec a md)
+
+/-! ## §12 ppDivMod: the result is reduced even when deg divident = deg mod -/
+
+theorem halveMod_bound2 (md : Nat) (f : Nat) :
+    ∀ u d, d < 2 ^ (md.log2 + 1) → (ppHalveMod md f u d).2 < 2 ^ (md.log2 + 1) := by
+  induction f with
+  | zero => intro u d h; exact h
+  | succ f ih =>
+    intro u d h
+    unfold ppHalveMod
+    split
+    · split
+      · exact ih _ _ (by omega)
+      · apply ih
+        have h1 : d ^^^ md < 2 ^ (md.log2 + 1) := Nat.xor_lt_two_pow h Nat.lt_log2_self
+        omega
+    · exact h
+
+/-- if v is even (≠ 0) the halving loop halves at least once, which reduces d below deg mod -/
+theorem halveMod_bound3 (md v d : Nat) (hd : d < 2 ^ (md.log2 + 1))
+    (h : d < 2 ^ md.log2 ∨ v % 2 = 0) : (ppHalveMod md (v.log2 + 1) v d).2 < 2 ^ md.log2 := by
+  rcases h with h | h
+  · exact halveMod_bound md _ v d h
+  · unfold ppHalveMod
+    rw [if_pos h]
+    split
+    · exact halveMod_bound md _ _ _ (by rw [Nat.pow_succ] at hd; omega)
+    · apply halveMod_bound
+      have h1 : d ^^^ md < 2 ^ (md.log2 + 1) := Nat.xor_lt_two_pow hd Nat.lt_log2_self
+      rw [Nat.pow_succ] at h1
+      omega
+
+theorem divLoop_bound2 (md : Nat) (f : Nat) :
+    ∀ u v da0 da, v ≠ 0 → da0 < 2 ^ (md.log2 + 1) → da < 2 ^ (md.log2 + 1) →
+      (da < 2 ^ md.log2 ∨ v % 2 = 0) →
+      (ppDivModLoop md f u v da0 da).1 % 2 = 1 → (ppDivModLoop md f u v da0 da).2 < 2 ^ md.log2 := by
+  induction f with
+  | zero =>
+    intro u v da0 da _ _ _ h hv
+    simp only [ppDivModLoop] at hv ⊢
+    rcases h with h | h
+    · exact h
+    · omega
+  | succ f ih =>
+    intro u v da0 da hv0 h0 h1 h hv
+    have hle : 2 ^ md.log2 ≤ 2 ^ (md.log2 + 1) := Nat.pow_le_pow_right (by omega) (by omega)
+    rw [ppDivModLoop] at hv ⊢
+    split
+    · rename_i hu
+      rw [if_pos hu] at hv
+      rcases h with h | h
+      · exact h
+      · simp only at hv; omega
+    · rename_i hu
+      rw [if_neg hu] at hv
+      have i0 := halveMod_bound2 md (u.log2 + 1) u da0 h0
+      have i1 := halveMod_bound3 md v da h1 h
+      have ou := oddP_odd hu
+      have ov := oddP_odd hv0
+      simp only [halveMod_fst'] at hv ⊢
+      split
+      · rename_i hge
+        rw [if_pos hge] at hv
+        exact ih _ _ _ _ (oddP_ne_zero hv0) (Nat.xor_lt_two_pow i0 (Nat.lt_of_lt_of_le i1 hle))
+          (Nat.lt_of_lt_of_le i1 hle) (Or.inl i1) hv
+      · rename_i hlt
+        rw [if_neg hlt] at hv
+        have hne : oddP v ^^^ oddP u ≠ 0 := by
+          intro h0; have := xor_eq_zero_iff.1 h0; omega
+        exact ih _ _ _ _ hne i0 (Nat.xor_lt_two_pow (Nat.lt_of_lt_of_le i1 hle) i0)
+          (Or.inr (by rw [xor_mod_two, ou, ov])) hv
+
+/-- ppDivMod at full strength; divident of degree ≤ deg mod (in particular divident < mod as
+    integers), a arbitrary -/
+theorem divModV_spec (dv a md : Nat) (hmd : md % 2 = 1) (hdv : dv < 2 ^ (md.log2 + 1)) :
+    (pgcd a md = 1 → pmod (clmul (ppDivModV dv a md) a) md = pmod dv md
+        ∧ ppDivModV dv a md < 2 ^ md.log2)
+    ∧ (pgcd a md ≠ 1 → ppDivModV dv a md = 0) := by
+  have hmd0 : md ≠ 0 := by omega
+  have hg := divLoop_gcd dv a md hmd
+  have inv := divLoop_inv md a dv hmd (a.log2 + md.log2 + 4) a md dv 0 (cong_refl _ _)
+    ⟨dv, by rw [zero_clmul, Nat.zero_xor]⟩
+  have bnd := divLoop_bound2 md (a.log2 + md.log2 + 4) a md dv 0 hmd0 hdv (Nat.two_pow_pos _)
+    (Or.inl (Nat.two_pow_pos _))
+  unfold ppDivModV
+  dsimp only
+  rw [hg] at inv bnd ⊢
+  constructor
+  · intro h1
+    rw [if_pos h1]
+    rw [h1] at inv bnd
+    have := pmod_cong hmd0 inv
+    rw [clmul_one] at this
+    exact ⟨this, bnd rfl⟩
+  · intro h1
+    rw [if_neg h1]
+
 end Bee2V.C05.Pp
